@@ -67,6 +67,9 @@ func c16alphabet() []c16op {
 		{id: "I4", json: `{"name":"um","add":1,"set":1}`, invalid: true},
 		{id: "I5", json: `{"action":"add","value":1}`, invalid: true},
 		{id: "I6", json: `{"group":"g2","action":"set","value":1}`, invalid: true},
+		// text that is not a JSON value at all: a stray closing bracket
+		{id: "I7", json: `}`, invalid: true},
+		{id: "I8", json: `]`, invalid: true},
 	}
 }
 
